@@ -312,4 +312,57 @@ fn gen(rng: &mut Rng, tier: &str) -> Vec<(String, Value)> {
     cases
 }
 
-fn main() { drive(gen, run) }
+//------------ stream `stress`: real threads, no schedule ------------------------------------------------------
+//
+// The schedules stream stops threads at the registry's rendezvous points; what happens inside one step (a counter
+// update, the lookup under the lock) is atomic there by assumption.  This stream lets real threads open and close
+// many connections at once and looks at the end state only: an oracle-only negative test without a model.
+
+fn gen_stress(_rng: &mut Rng, tier: &str) -> Vec<(String, Value)> {
+    let mut v = Vec::new();
+    let rounds = if tier == "thorough" { 12 } else { 4 };
+    for (threads, conns, addrs) in [(2u64, 20_000u64, 1u64), (4, 20_000, 3), (8, 20_000, 3), (8, 2_000, 40), (16, 5_000, 7)] {
+        for r in 0..rounds { v.push((format!("stress.t{}", threads), json!({"threads": threads, "conns": conns, "addrs": addrs, "round": r}))); }
+    }
+    v
+}
+
+fn run_stress(input: &Value) -> CaseOut {
+    use std::net::{IpAddr, Ipv4Addr};
+    use std::sync::{Arc, Barrier};
+    let (threads, conns, addrs) = (input["threads"].as_u64().unwrap() as usize, input["conns"].as_u64().unwrap() as usize, input["addrs"].as_u64().unwrap() as usize);
+    let metrics = Arc::new(routinator::metrics::RtrServerMetrics::new(true));
+    let barrier = Arc::new(Barrier::new(threads));
+    let handles: Vec<_> = (0..threads).map(|t| {
+        let metrics = metrics.clone();
+        let barrier = barrier.clone();
+        std::thread::spawn(move || {
+            // first contact of all threads with all addresses at the same moment, then open, then close all at once
+            barrier.wait();
+            let open: Vec<_> = (0..conns).map(|i| {
+                let a = (t + i) % addrs;
+                let client = metrics.get_client(IpAddr::V4(Ipv4Addr::new(192, 0, (a / 256) as u8, (a % 256) as u8)));
+                client.update(|m| m.inc_current_connections());
+                client
+            }).collect();
+            barrier.wait();
+            for client in open { client.update(|m| m.dec_current_connections()); }
+        })
+    }).collect();
+    for h in handles { h.join().unwrap(); }
+    let clients = metrics.clients().unwrap();
+    let entries: Vec<u64> = clients.iter().map(|item| match item.0 { IpAddr::V4(a) => u32::from(a) as u64, IpAddr::V6(_) => 0 }).collect();
+    let open_sum: u64 = clients.iter().map(|item| item.1.current_connections() as u64).sum();
+    let open_global = metrics.global().current_connections() as u64;
+    let obs = json!({"entries": entries.len(), "open_global": open_global, "open_sum": open_sum});
+    let coq = format!("{{| s_threads := {}; s_conns := {}; s_addrs := {}; i_entries := {}; i_open_global := {}; i_open_sum := {} |}}",
+        threads, conns, addrs, coq_nlist(entries.iter()), open_global, open_sum);
+    CaseOut { obs, coq, nontrivial: threads > 1 }
+}
+
+fn main() {
+    match std::env::var("C36_STREAM").as_deref() {
+        Ok("stress") => drive(gen_stress, run_stress),
+        _ => drive(gen, run),
+    }
+}
